@@ -82,10 +82,10 @@ Legal(c, its) ==
     /\ \A i, j \in 1..Len(its) : (i # j /\ its[i].kind = "add" /\ its[j].kind = "add") => its[i].kp # its[j].kp
 
 Check(c, items) ==
-    LET sr == ApplyProposals("send", PartyAt(c), T0, c, items) IN
+    LET sr == ApplyProposals("send", PartyAt(c), T0, c, items, 0) IN
     IF sr.ok /\ ~Legal(c, sr.applied) THEN "illegal list committed"
     ELSE IF sr.ok /\ \E r \in Committers \ {c} :
-                LET rr == ApplyProposals("recv", PartyAt(r), T0, c, sr.applied) IN
+                LET rr == ApplyProposals("recv", PartyAt(r), T0, c, sr.applied, 0) IN
                 ~(rr.ok /\ rr.applied = sr.applied /\ rr.tree = sr.tree /\ rr.added = sr.added /\ rr.removed = sr.removed)
          THEN "receiver disagrees with sender"
     \* nothing by value is silently dropped
